@@ -55,6 +55,12 @@ def generate(tier, seed):
                         "(lambda (a b) (tick 1) (< (length (sort (append a b) '<)) 5))", "(lambda (a b) (equal (sort a '<) (sort a '<)))",
                         "(lambda (a b) (< (car (sort (list (car a) (car b) 3) (lambda (p q) (< (car (sort (list p q) '<)) q)))) (car b)))"])
         reqs.append(["(setq l '%s)" % rows, "(sort l %s)" % p, "l"])
+    for _ in range(40 if tier == "quick" else 800):
+        n = rng.randint(2, 8)
+        rows = "(" + " ".join("(" + " ".join(str(rng.randint(0, 2)) for _ in range(rng.randint(0, 4))) + ")" for _ in range(n)) + ")"
+        defs = ("(defun lex< (a b) (cond ((null a) (consp b)) ((null b) nil) ((< (car a) (car b)) t) ((> (car a) (car b)) nil) (t (lex< (cdr a) (cdr b))))) "
+                "(defun len< (a b) (if (null b) nil (if (null a) t (len< (cdr a) (cdr b))))) (defun sum< (a b &optional sa sb) (if (or a b) (sum< (cdr a) (cdr b) (+ (or sa 0) (or (car a) 0)) (+ (or sb 0) (or (car b) 0))) (< (or sa 0) (or sb 0))))")
+        reqs.append([defs, "(setq l '%s)" % rows, "(sort l '%s)" % rng.choice(["lex<", "len<", "sum<"]), "l", "(sort l #'%s)" % rng.choice(["lex<", "len<"]), "(list (lex< '(1 1) '(1 2)) (lex< '(1 2) '(1 1)))"])
     # erroring predicate at the k-th call
     for n in [2, 3, 5, 8]:
         xs = [rng.randint(0, 3) for _ in range(n)]
